@@ -247,6 +247,67 @@ fn big_lines(kind: usize) -> Vec<String> {
     }
 }
 
+/// Programs that restart themselves (RUN, RUN n, CLEAR executed from inside a
+/// subroutine or a loop) 70 000 times: every restart must release the frames
+/// that were open. The restarts are counted by the INPUT replies they consume.
+struct Restarts;
+
+const RESTARTERS: [[&str; 3]; 5] = [
+    ["10 INPUT A:IF A=0 THEN PRINT \"done\":END", "20 GOSUB 30", "30 RUN"],
+    ["10 INPUT A:IF A=0 THEN PRINT \"done\":END", "20 GOSUB 30", "30 RUN 10"],
+    ["10 INPUT A:IF A=0 THEN PRINT \"done\":END", "20 FOR I=1 TO 2:GOSUB 30", "30 CLEAR:GOTO 10"],
+    ["10 INPUT A:IF A=0 THEN PRINT \"done\":END", "20 FOR I=1 TO 9:FOR J=1 TO 2", "30 RUN"],
+    ["10 INPUT A:IF A=0 THEN PRINT \"done\":END", "20 DEF FNA(X)=X+1:GOSUB 30", "30 B=FNA(1):CLEAR:GOTO 10"],
+];
+
+impl Sweep for Restarts {
+    fn name(&self) -> String {
+        "self-restarting-programs-70000-restarts".into()
+    }
+    fn shards(&self) -> usize {
+        RESTARTERS.len()
+    }
+    fn run_shard(&self, shard: usize, ctx: &mut Ctx) {
+        let lines = RESTARTERS[shard];
+        if !ctx.begin(&format!("{} // RUN with {} replies 1 and a final 0", lines.join(" / "), N)) {
+            return;
+        }
+        let r = guard(|| {
+            let mut s = Session::with(5000, 400000);
+            for l in lines {
+                s.enter(l);
+            }
+            s.take();
+            for _ in 0..N {
+                s.replies.push_back("1".to_string());
+            }
+            s.replies.push_back("0".to_string());
+            let st = s.enter("RUN");
+            let ev = s.take();
+            let mut tail = String::new();
+            for e in ev.iter().rev().take(6).rev() {
+                match e {
+                    Ev::Out(t) => tail.push_str(t),
+                    Ev::Err(v) => tail.push_str(&format!("<{}>", v[0].raw)),
+                    _ => {}
+                }
+            }
+            (tail, st, s.replies.len())
+        });
+        ctx.nontrivial(hash64(&shard));
+        match r {
+            Err(p) => ctx.violation(&format!("restart/{}", crate::engine::panic_class(&p)), p),
+            Ok((tail, st, left)) => {
+                if st != Status::Stopped || !tail.ends_with("done\n") || left != 0 {
+                    let class = if tail.contains("OUT OF MEMORY") { "frames-not-released-by-restart" } else { "does-not-complete" };
+                    ctx.violation(&format!("restart/{}", class), format!("ended with {:?} ({} replies left)", tail, left));
+                }
+            }
+        }
+        ctx.sample();
+    }
+}
+
 struct Limits;
 
 fn limit_cases() -> Vec<(&'static str, Vec<String>)> {
@@ -280,8 +341,9 @@ impl Sweep for Limits {
             // slots of variables set back to 0 / "" are freed: 90 000 distinct elements, one at a time
             // (also zeros that only arise from the conversion to the element's type)
             let lines: Vec<String> = [
-                "10 DIM A(300,300),S$(300,300),C%(300,300),F!(300,300)",
-                "20 FOR I=0 TO 299:FOR J=0 TO 299:A(I,J)=1:A(I,J)=0:S$(I,J)=\"x\":S$(I,J)=\"\":C%(I,J)=1:C%(I,J)=C%(I,J)/2:F!(I,J)=1:F!(I,J)=1D-60:NEXT J,I",
+                "10 DIM A(300,300),S$(300,300),C%(300,300),F!(300,300),G!(300,300),H%(300,300),K#(300,300),T$(300,300)",
+                "20 FOR I=0 TO 299:FOR J=0 TO 299:A(I,J)=1:A(I,J)=0:S$(I,J)=\"x\":S$(I,J)=\"\":C%(I,J)=1:C%(I,J)=C%(I,J)/2:F!(I,J)=1:F!(I,J)=1D-60",
+                "25 G!(I,J)=2.5:G!(I,J)=G!(I,J)-2.5:H%(I,J)=3:H%(I,J)=H%(I,J)-3:K#(I,J)=1:K#(I,J)=K#(I,J)-K#(I,J):T$(I,J)=\"y\":T$(I,J)=LEFT$(T$(I,J),0):NEXT J,I",
                 "30 PRINT \"done\";I:END",
             ]
                 .iter()
@@ -370,7 +432,7 @@ impl Check for C18 {
             Tier::Quick => vec![Shape::For, Shape::GotoCounter, Shape::SubroutineFromFor],
             Tier::Thorough => SHAPES.to_vec(),
         };
-        vec![Box::new(Limits), Box::new(Residue { n: N, shapes })]
+        vec![Box::new(Limits), Box::new(Restarts), Box::new(Residue { n: N, shapes })]
     }
     fn meta(&self, tier: Tier) -> Meta {
         Meta {
